@@ -32,6 +32,9 @@ def run(job):
         quanta += [Decimal("0.25"), Fraction(2, 7), Decimal(1000),
                    Decimal("0.000001")]
     quanta += [q for q in (abs(x) for x in job.extra) if q > 0][:4]
+    # negative quanta select from the same multiples (the ratio amount / quantum
+    # is what is rounded); Decimal and Fraction amounts must still agree
+    quanta += [Decimal(-1), Fraction(-1, 3)]
     ks = range(-4, 5) if quick else range(-12, 13)
     job.bound = (f"{sum(len(u) for u in unit_sets)} units x {len(quanta)} "
                  f"quanta x ties k*nq/2 (k in {ks.start}..{ks.stop - 1}) "
